@@ -28,14 +28,28 @@ func gen(c *hmain.Ctx) {
 	for i := 0; i < 4; i++ {
 		jobs = append(jobs, &pipedrv.Job{Stream: "deadqueue", Case: pipedrv.DeadQOvertake(1+i%2, 120+20*i, 50+10*i)})
 	}
+	// families / directed schedules that cross the scale / history thresholds of /repo/pipeline (what each would expose:
+	// pipedrv/gen.go, pipedrv/directed.go)
+	add("capacity-1", pipedrv.FamCap1, 10)
+	add("slow-flush", pipedrv.FamSlowFlush, 10)
+	add("hold-slow", pipedrv.FamHoldSlow, 8)
+	add("recycle", pipedrv.FamRecycle, 12)
+	add("split-fan", pipedrv.FamSplitFan, 15)
+	add("retry-backoff", pipedrv.FamRetryBackoff, 10)
+	add("maintenance", pipedrv.FamMaint, 6)
+	for i := 0; i < 2*c.Scale; i++ {
+		jobs = append(jobs, &pipedrv.Job{Stream: "expand-procs", Case: pipedrv.ExpandProcs(2500, 1600, 2+i%3, i%2 == 1)})
+	}
 	pipedrv.RunJobs(jobs, 40)
 	for _, j := range jobs {
+		pipedrv.Stats(c.W.Count, j)
 		c.W.Case(j.Stream, 0, j.Case, j.Obs, true)
 	}
 }
 
 func main() {
+	pipedrv.UseProductionNodePool()
 	hmain.Run(&hmain.Prop{ID: "C02",
-		Rule: "each case = (pipeline config: processors, pool kind/capacity, event time-out, action count, output kind/workers/batch size/retry/dead queue; per-source feeder scripts of JSON events whose 'ops' field scripts every action: pass/discard/hold/continue/break/split; send delay/failure plan) run on the real pipeline; observable = label trace of streams, processors, finalize, batchers. Every case is non-trivial (>= 3 events); distinct = distinct case text.",
+		Rule: "each case = (pipeline config: processors, pool kind/capacity, event time-out, action count, output kind/workers/batch size/retry/dead queue; per-source feeder scripts of JSON events whose 'ops' field scripts every action: pass/discard/hold/continue/break/split; send delay/failure plan) run on the real pipeline; observable = label trace of streams, processors, finalize, batchers. Threshold-crossing families: capacity-1, slow-flush (flush >= 100 ms), hold-slow (event time-out > 200 ms), recycle (feeder op 6: pads up to 64 KiB / > 64 JSON nodes; op 'g' grows Buf; 4th case element = (avgEventSize retentionMs multiplierPercent maintenanceMs)), split-fan (0-14 children with their own ops), retry-backoff, maintenance; directed expand-procs / stale-unblock-slow. Every case is non-trivial (>= 3 events); distinct = distinct case text.",
 		Gen:  gen, Exec: func(which int, cs hx.Sx) hx.Sx { return pipedrv.RunCase(cs) }})
 }
